@@ -123,7 +123,7 @@ pub use raw::{
     ValuesLRUIterMut, ValuesMRUIter, ValuesMRUIterMut,
 };
 #[cfg(feature = "verif-hooks")]
-pub use raw::verif::VerifAudit;
+pub use raw::verif::{VerifAudit, VerifWeakAudit};
 pub use segmented::{SegmentedCache, SegmentedCacheBuilder};
 pub use two_queue::{
     TwoQueueCache, TwoQueueCacheBuilder, DEFAULT_2Q_GHOST_RATIO, DEFAULT_2Q_RECENT_RATIO,
